@@ -366,6 +366,9 @@ var pkgRank = map[string]int{"nest": -1, "alt1": -2, "alt2": -3, "alt3": -4, "hc
 // visible: package `from` may import package `of` (the generator keeps the package graph acyclic).
 func visible(from, of string) bool { return pkgRank[of] <= pkgRank[from] }
 
+// Visible is the exported form: may package `from` import package `of` without creating a cycle?
+func Visible(from, of string) bool { return visible(from, of) }
+
 func (g *gen) enumsFor(from string) []Enum {
 	var out []Enum
 	for _, e := range g.p.Enums {
@@ -439,13 +442,13 @@ func (g *gen) genConfig() {
 	}
 	if g.chance(0.4) {
 		c.ContactName, c.ContactEmail, c.ContactURL = "Support", "support@example.com", "https://example.com/support"
-		switch g.r.Intn(4) { // every field of the contact is optional on its own
+		switch g.r.Intn(4) { // name and url are optional on their own (gleece's own rule requires a well-formed e-mail)
 		case 0:
 			c.ContactName = ""
 		case 1:
 			c.ContactName, c.ContactURL = "", ""
 		case 2:
-			c.ContactEmail, c.ContactURL = "", ""
+			c.ContactURL = ""
 		}
 	}
 	if g.chance(0.3) {
